@@ -119,6 +119,11 @@ class Emit:
     def __init__(self, kind, stmt, tup, idx, loops, guards, vnow):
         self.kind, self.stmt, self.tup, self.idx = kind, stmt, tup, idx
         self.loops, self.guards, self.vnow = loops, guards, vnow
+        self.pos = 0    # position of the tuple inside its statement (`faces += [t0, t1]`)
+
+    @property
+    def key(self):
+        return (id(self.stmt), self.pos)
 
 
 class VSite:
@@ -442,10 +447,12 @@ class GridFn:
                 tuples = list(val.elts)
             else:
                 raise Unsupported(f"{K} extended with a non-literal list")
-        for t in tuples:
+        for pos, t in enumerate(tuples):
             if not isinstance(t, (ast.Tuple, ast.List)) or any(isinstance(x, ast.Starred) for x in t.elts):
                 raise Unsupported(f"{K} receives `{au.src(t)}`, not an index tuple")
-            run.emits.append(Emit(K, st, t, list(t.elts), loops, guards, vnow))
+            em = Emit(K, st, t, list(t.elts), loops, guards, vnow)
+            em.pos = pos
+            run.emits.append(em)
 
     def _literal_len(self, payload, st, run):
         v = self.resolved(payload, st, run)
